@@ -346,6 +346,39 @@ fn random_case(tape: &[u8], cfg: &program::GenCfg, st: &mut Stats) -> Vec<Violat
     check_text("random", &text, Some(&sel), st)
 }
 
+
+/// Bounded (root, set) selection for the fuzz target: file root + 6 evenly spread sub-roots,
+/// the detectors' kind sets and the set of all kinds present.
+pub fn fuzz_selection(text: &str) -> Option<Selection> {
+    let su = crate::parse(text)?;
+    let items = walk::walk_source_unit(&su);
+    let n = items.len();
+    let mut roots = vec![0usize];
+    for k in 1..=6 {
+        roots.push(k * n / 7);
+    }
+    let present: Vec<K> = {
+        let s: HashSet<K> = items.iter().map(|i| i.kind).collect();
+        let mut v: Vec<K> = s.into_iter().collect();
+        v.sort();
+        v
+    };
+    let mut sets = detector_sets();
+    sets.push(present);
+    Some(Selection { roots, sets })
+}
+
+/// Decode a fuzz input of the structure-aware target `fz_tape` into a program text.
+pub fn text_of_fuzz_tape(data: &[u8]) -> Option<String> {
+    if data.is_empty() {
+        return None;
+    }
+    let focus = data[0] % 4;
+    let mut t = Tape::new(&data[1..]);
+    let cfg = program::GenCfg { undecided: true, plant: 100, focus, max_depth: 7, ..Default::default() };
+    Some(program::gen_program(&mut t, &cfg))
+}
+
 pub fn run(env: &Env) -> i32 {
     let mut st = Stats::default();
     // regressions
@@ -376,6 +409,20 @@ pub fn run(env: &Env) -> i32 {
         }
         v
     });
+    let fz = fuzz_inputs();
+    let mut fuzz_stats = json!({"status": "not run in this tier"});
+    if let Some(fz) = &fz {
+        fuzz_stats = fz.stats.clone();
+        enum_stream(env, &mut st, fz.inputs.len() as u64, |i, s| {
+            match text_of_fuzz_tape(&fz.inputs[i as usize].1) {
+                Some(text) => {
+                    s.count("fuzz_inputs_replayed");
+                    check_text("fuzz-corpus", &text, None, s)
+                }
+                None => vec![],
+            }
+        });
+    }
     // random programs
     let cfg = program::GenCfg { undecided: true, plant: 70, ..Default::default() };
     tape_stream(env, &mut st, "random", env.tier.n(16_000, 400_000), 1500, |tape, s| random_case(tape, &cfg, s));
@@ -397,6 +444,7 @@ pub fn run(env: &Env) -> i32 {
             "matrix_instances": n_inst,
             "exhaustive_subdomains": ["slot matrix: every template x every marker of its sort"],
             "generator_acceptance": {"accepted": accepted, "rejected": rejected},
+            "fuzz": fuzz_stats,
         }),
         floors: vec![
             ("position classes hit".into(), classes, 163),
